@@ -1,0 +1,110 @@
+// © Copyright 2025-2026, Query.Farm LLC - https://query.farm
+// SPDX-License-Identifier: Apache-2.0
+
+//go:build verif
+
+package vgirpc
+
+import (
+	"time"
+)
+
+// Verification hooks for property C29 (sticky sessions). Add-only wrappers
+// around unexported internals; compiled only with -tags verif.
+
+// VerifC29Entry is a snapshot of one live registry entry.
+type VerifC29Entry struct {
+	SID          []byte
+	ExpiresAt    time.Time
+	PrincipalKey string
+	// Locked reports whether the per-entry lock was held at snapshot time
+	// (probed with TryLock; released again immediately when it was free).
+	Locked bool
+	State  any
+}
+
+// VerifC29Entries snapshots the sticky registry (nil when sticky is off).
+func (h *HttpServer) VerifC29Entries() []VerifC29Entry {
+	r := h.stickyRegistry
+	if r == nil {
+		return nil
+	}
+	r.mu.Lock()
+	defer r.mu.Unlock()
+	out := make([]VerifC29Entry, 0, len(r.entries))
+	for sid, e := range r.entries {
+		s := sid
+		locked := true
+		if e.lock.TryLock() {
+			locked = false
+			e.lock.Unlock()
+		}
+		out = append(out, VerifC29Entry{SID: s[:], ExpiresAt: e.expiresAt, PrincipalKey: e.principalKey, Locked: locked, State: e.state})
+	}
+	return out
+}
+
+// VerifC29Age moves every entry's expiry d into the past (the effect of the
+// clock advancing by d) without sleeping.
+func (h *HttpServer) VerifC29Age(d time.Duration) {
+	r := h.stickyRegistry
+	if r == nil {
+		return
+	}
+	r.mu.Lock()
+	defer r.mu.Unlock()
+	for _, e := range r.entries {
+		e.expiresAt = e.expiresAt.Add(-d)
+	}
+}
+
+// VerifC29DrainExpired runs one reaper sweep at the given instant.
+func (h *HttpServer) VerifC29DrainExpired(now time.Time) int {
+	return h.stickyRegistry.drainExpired(now)
+}
+
+// VerifC29StopReaper starts and immediately stops the background reaper so
+// later requests cannot start it (sweeps are then driven explicitly).
+func (h *HttpServer) VerifC29StopReaper() {
+	h.stickyRegistry.ensureReaper()
+	h.stickyRegistry.stopReaper()
+}
+
+// VerifC29SetReaperTick sets the background reaper's period; call before the
+// first request.
+func (h *HttpServer) VerifC29SetReaperTick(d time.Duration) {
+	h.stickyRegistry.reaperTick = d
+}
+
+// VerifC29DefaultTTL reports the registry's default TTL.
+func (h *HttpServer) VerifC29DefaultTTL() time.Duration {
+	return h.stickyRegistry.defaultTTL
+}
+
+// VerifC29TokenKey returns the server's token key.
+func (h *HttpServer) VerifC29TokenKey() []byte { return h.tokenKey }
+
+// VerifC29Aad is stateTokenAad.
+func VerifC29Aad(auth *AuthContext) []byte { return stateTokenAad(auth) }
+
+// VerifC29PrincipalKey is principalKeyFromAuth.
+func VerifC29PrincipalKey(auth *AuthContext) string { return principalKeyFromAuth(auth) }
+
+// VerifC29Seal is sealSessionToken.
+func VerifC29Seal(key []byte, serverID string, sid []byte, expiresAt int64, aad []byte, now int64) (string, error) {
+	var s [sessionIDLen]byte
+	copy(s[:], sid)
+	return sealSessionToken(key, serverID, s, expiresAt, aad, now)
+}
+
+// VerifC29Open is openSessionToken; ok=false for every failure.
+func VerifC29Open(token string, key, aad []byte) (serverID string, sid []byte, expiresAt int64, ok bool) {
+	srv, s, exp, err := openSessionToken(token, key, aad)
+	if err != nil {
+		return "", nil, 0, false
+	}
+	return srv, s[:], exp, true
+}
+
+// VerifC29SessionIDLen is sessionIDLen.
+const VerifC29SessionIDLen = sessionIDLen
